@@ -371,7 +371,7 @@ pub fn handle_xread(storage: &Arc<StorageEngine>, db: usize, parts: &[RespFrame]
     
     // Format response
     if results.is_empty() {
-        return Ok(RespFrame::Array(Some(Vec::new())));
+        return Ok(RespFrame::null_array());
     }
     
     // Format non-empty results
